@@ -31,3 +31,36 @@ package shard
 //@   loop 1 invariant rangeindex >= -1 && rangeindex < len(finalResults)
 //@   loop 2 invariant rangeindex >= -1 && rangeindex < len(searchRequest.Select) && i >= 0 && i < len(finalResults)
 //@   loop 3 invariant rangeindex >= -1 && rangeindex < len(segments) && len(res) > 0
+
+// ---- all-or-nothing write batches: the cache transaction is finished exactly once and with the
+// right flag, and the storage error is never swallowed (property C07, sequential part) ----
+// The write-transaction bodies are not under contract here (assumed: of the captured variables
+// they assign only those listed).
+//@ func (*Shard).InsertPoints$1
+//@   trusted
+//@   modifies txTime
+//@ func (*Shard).UpdatePoints$1
+//@   trusted
+//@   modifies updatedIds
+//@ func (*Shard).DeletePoints$1
+//@   trusted
+//@   modifies deletedIds
+
+//@ func (*Shard).InsertPoints
+//@   property C07
+//@   safety -overflow -index
+//@   ensures ncalls(NewTransaction) == 0 ==> result != nil && ncalls(Commit) == 0 && ncalls(Write) == 0
+//@   ensures ncalls(NewTransaction) != 0 ==> ncalls(NewTransaction) == 1 && ncalls(Commit) == 1 && ncalls(Write) == 1
+//@   ensures ncalls(Commit) == 1 ==> lastarg(Commit, 1) == (result != nil) && (result != nil) == (lastres(Write) != nil)
+
+//@ func (*Shard).UpdatePoints
+//@   property C07
+//@   safety -overflow -index
+//@   ensures ncalls(NewTransaction) == 1 && ncalls(Commit) == 1 && ncalls(Write) == 1
+//@   ensures lastarg(Commit, 1) == (err != nil) && (err != nil) == (lastres(Write) != nil)
+
+//@ func (*Shard).DeletePoints
+//@   property C07
+//@   safety -overflow -index
+//@   ensures ncalls(NewTransaction) == 1 && ncalls(Commit) == 1 && ncalls(Write) == 1
+//@   ensures lastarg(Commit, 1) == (err != nil) && (err != nil) == (lastres(Write) != nil)
